@@ -52,9 +52,19 @@ def fnnls_cholesky(
 
     if P_initial.shape[0] != 0:
         P_number = np.arange(len(P), dtype="int")
-        P_inorder = P_number[P_initial]
-        s_chol[P] = lstsq((ZTZ)[P][:, P], (ZTx)[P])
-        d = s_chol.clip(min=0)
+        # The active-set iteration below requires its starting point to be feasible and optimal on the
+        # passive set (solution strictly positive on P, zero elsewhere), with w the matching residual.
+        # The guessed passive set is therefore shrunk until the least-squares solution on it is positive.
+        while np.any(P):
+            s_chol[:] = 0.0
+            s_chol[P] = lstsq((ZTZ)[P][:, P], (ZTx)[P])
+            if np.min(s_chol[P]) > tolerance:
+                break
+            P[s_chol <= tolerance] = False
+        s_chol[~P] = 0.0
+        P_inorder = P_number[P]
+        d = s_chol.copy()
+        w = ZTx - (ZTZ) @ d
     else:
         P_inorder = np.array([], dtype="int")
 
